@@ -368,12 +368,12 @@ def check_lenght(case, out):
 
 
 FACETS = [
-    Facet("rules", lambda tier: rule_cases(12 if tier == "quick" else 16), check_rules, quick=300, thorough=5000,
+    Facet("rules", lambda tier: rule_cases(12 if tier == "quick" else 16), check_rules, quick=600, thorough=5000,
           rule="request histories in forked pristine processes"),
-    Facet("scalar", lambda tier: scalar_cases(("frac", "frac", "float")), check_scalar, quick=500, thorough=8000,
+    Facet("scalar", lambda tier: scalar_cases(("frac", "frac", "float")), check_scalar, quick=1200, thorough=8000,
           rule="Integrate.scalar vs closed form / exact product integral"),
-    Facet("function", lambda tier: function_cases(), check_function, quick=400, thorough=6000,
+    Facet("function", lambda tier: function_cases(), check_function, quick=900, thorough=6000,
           rule="Integrate.function on global and per-span polynomials"),
-    Facet("lenght", lambda tier: lenght_cases(), check_lenght, quick=300, thorough=5000,
+    Facet("lenght", lambda tier: lenght_cases(), check_lenght, quick=600, thorough=5000,
           rule="polyline length"),
 ]
